@@ -198,7 +198,7 @@ func init() {
 			}
 			return out
 		},
-		MustCover:   []string{"trials-killed-inside-store", "torn-write-trials"},
+		MustCover: []string{"trials-killed-inside-store", "torn-write-trials"},
 	})
 }
 
